@@ -118,6 +118,10 @@ func runAnalysisProp(prop string, r *Rng, n int, tier string) {
 				prefix = seedQueries(s) // other queries of the package come first
 			}
 		}
+		if i%5 == 2 {
+			q, _ = genWideStmt(r, s, i)
+			mustModel = ""
+		}
 		if i%5 == 4 && prop != "C03" {
 			var ddl string
 			q, ddl = genExtraStmt(r, s, i)
